@@ -1230,6 +1230,13 @@ def exponent_not_min(F, fn, bb):
             if any(x[0] == ("const", I32_MIN) for x in sides) and any(ap_str(x) == txt for x in sides):
                 if (r[1] == "Ne") == (d[2] is True):
                     return True, "behind `!= i32::MIN`"
+        # a magnitude bound: `x.unsigned_abs() <= c` / `< c` with c below 2^31 (taken), or `> c` / `>= c` (not taken)
+        if r[0] == "binop" and r[1] in ("Le", "Lt", "Gt", "Ge") and not d[1][1]:
+            a_, b_ = r[2], r[3]
+            if a_[0][0] == "call" and a_[0][1].endswith("::unsigned_abs") and not a_[1] and ap_str(a_[0][2][0]) == txt and \
+                    b_[0][0] == "const" and isinstance(b_[0][1], int) and 0 <= b_[0][1] < 2 ** 31:
+                if (r[1] in ("Le", "Lt")) == (d[2] is True):
+                    return True, "behind `|x| %s %d`" % ("<=" if r[1] in ("Le", "Ge") else "<", b_[0][1])
     if "Option::<T>::filter(" in txt:
         for cp in re.findall(r"closure:([^{]+(?:\{closure#\d+\})+)", txt):
             for c in F.closures_of(fn):
